@@ -11,7 +11,8 @@ RULE = ("every set() with a name and every sequence of 0..K values over 14 value
         "(top level, inside a function body, after a class, between two documented commands); oracle = reference model. "
         "non-trivial = an entry is expected; distinct by (command, arguments, doc, position)")
 
-FORMS = ["v", "x", "1", "a;b", '""', '"q"', '"a b"', '"a\\"b"', '"\\""', '"x"', "${r}", "[[b c]]", "[=[z]=]", "CACHE"]
+FORMS = ["v", "x", "1", "a;b", '""', '"q"', '"a b"', '"a\\"b"', '"\\""', '"x"', "${r}", "[[b c]]", "[=[z]=]", "CACHE",
+         '"l1\nl2"', '"c\\\nd"']   # quoted values with a real line break / a line continuation
 CORE = ["v", '""', '"a b"', '"a\\"b"', "${r}", "[[b c]]"]
 HELPS = ['"h"', '"help text"', "[[h]]", "${h}"]
 DEFAULTS = [None, "ON", "OFF", "${d}"]
@@ -24,8 +25,31 @@ def positions(ev):
             [{"k": "generic", "doc": 1}, ev, {"k": "set", "doc": 1, "values": ["tail"]}]]
 
 
+def check_multiline(events, case):
+    """a value with a line break: the line-based observer cannot follow the field over the break, so the raw page is
+    searched for the field text as written"""
+    from .. import refmodel
+    text, r = modsearch.run_module(events, None, case)
+    exp = [e for e in refmodel.expected(events) if e["kind"] == "data" and e.get("value") and "\n" in e["value"]]
+    msgs = []
+    if r["page"] is None:
+        msgs.append(f"error: pipeline failed on a well-formed module: {r['error']}")
+    else:
+        for e in exp:
+            if f".. data:: {e['name']}" not in r["page"]:
+                msgs.append(f"entries: no variable entry for {e['name']}")
+            if f":Default value: {e['value']}\n" not in r["page"]:
+                msgs.append(f"var-default: entry {e['name']}: default value text {e['value']!r} not shown as written")
+            if f":type: {e['type']}" not in r["page"]:
+                msgs.append(f"var-type: entry {e['name']}: type {e['type']} not shown")
+    return msgs, common.digest(r["page"] or ""), bool(exp)
+
+
 def check(events, case):
-    msgs, dg, nt = modsearch.check_module(events, None, case)
+    if any("\n" in v for ev in events for v in ev.get("values", [])):
+        msgs, dg, nt = check_multiline(events, case)
+    else:
+        msgs, dg, nt = modsearch.check_module(events, None, case)
     return {"viol": msgs, "obs": dg, "nt": common.digest(events) if nt else None,
             "cls": msgs[0].split(":")[0] if msgs else None}
 
@@ -57,4 +81,8 @@ def run(ctx):
 
 
 def replay(case):
-    return check(case, "lower")["viol"]
+    for cs in ("lower", "upper", "mixed"):
+        m = check(case, cs)["viol"]
+        if m:
+            return m
+    return []
